@@ -42,7 +42,7 @@ class ndarray(list):
 
 def _at(lst, i, n):
     if i < -n or i >= n:
-        raise IndexError(f'index {i} is out of bounds for axis 0 with size {n}')
+        raise IndexError('index is out of bounds for axis 0')   # no formatting: it would realise a symbolic index
     if i < 0:
         i = i + n
     # elementary selection: forks on comparisons instead of realising at list.__getitem__
